@@ -530,6 +530,10 @@ pub fn run(scn: &MScn, oracles: &[Oracle], out: &mut Outcome, fp: &mut Fp, tr: &
                     }
                     if mres == MRes::Halt {
                         out.bump("probe.virtual-halt");
+                        if scn.ops.iter().any(|o| matches!(o, Op::CallSub(_))) {
+                            // the host may still call a subroutine on the halted machine
+                            break;
+                        }
                         break 'ops;
                     }
                 }
@@ -559,6 +563,32 @@ pub fn run(scn: &MScn, oracles: &[Oracle], out: &mut Outcome, fp: &mut Fp, tr: &
             Op::SubDef(a, s) => {
                 w.sim.frame_stack.set_subroutine_def(*a, sig_to_lib(s));
                 m.sigs.insert(*a, s.clone());
+            }
+            Op::CallSub(a) => {
+                // which instruction the machine "stands at" after host-side PC edits is the library's own
+                // bookkeeping (its public prefetch_pc()); the frame's caller must agree with that query
+                m.prefetch = match guarded(|| w.sim.prefetch_pc()) {
+                    Ok(p) => p == w.sim.pc,
+                    Err(p) => fail!("panic-in-prefetch_pc", p),
+                };
+                match guarded(|| w.sim.call_subroutine(*a)) {
+                    Ok(_) => {}
+                    Err(p) => fail!("panic-in-call_subroutine", p),
+                }
+                m.host_call_subroutine(*a);
+                out.bump("probe.host-call-subroutine");
+                if has(Oracle::Frames) {
+                    if w.sim.frame_stack.len() != m.depth {
+                        fail!("frame-depth", format!("after call_subroutine(x{a:04X}): frame_stack.len() = {}, model {}", w.sim.frame_stack.len(), m.depth));
+                    }
+                    if let (Some(fs), Some(g)) = (w.sim.frame_stack.frames(), m.frames.last()) {
+                        if let Some(f) = fs.last() {
+                            if f.caller_addr != g.caller || f.callee_addr != g.callee {
+                                fail!("frame-entry", format!("frame pushed by call_subroutine(x{a:04X}): (caller x{:04X}, callee x{:04X}), model (x{:04X}, x{:04X})", f.caller_addr, f.callee_addr, g.caller, g.callee));
+                            }
+                        }
+                    }
+                }
             }
             Op::Host(ev) => {
                 w.host.apply(ev);
